@@ -22,6 +22,8 @@
     A third bound gives ONE factory two dependencies (every pair of required / optional
     edges over 3 names with explicit factories, every failing subset, every request): a
     tolerated failure followed by a sibling request, and cycles through the second edge.
+    A fourth gives a CHAIN of 20 names (each factory requests the next; all edges required or
+    all optional; the last factory may fail) and every pair of requests along it.
     Thorough/quick: simulated deep behaviours over 3 names (cycles of length 3,
     6 definitions, 6 Gets)."""
 import json
@@ -64,6 +66,14 @@ def run(ctx):
     vlib.report_case_failures(ctx, mw, 'two-dependency factory histories')
     ctx.cov['evaluations'] += mw['executed']
     ctx.cov['distinct_nontrivial'] += mw['executed']
+    # a LONG chain: 20 names, the factory of each requests the next (all required / all optional), the last may fail
+    rc = ctx.tlc_must_pass('di', 'DI', 'MC_DI_chain.cfg', workers=8, timeout=1800, name='DI with a chain of 20 names (every pair of requests)')
+    shards_c, total_c, taken_c = vlib.shard_lines(ctx, rc['out'], NPROC, marker='\\"k\\":\\"di\\"')
+    mc = vlib.run_sharded(ctx, lambda p: ['dicases', '--in', p], shards_c)
+    ctx.cov['replay'].append(dict(what='API histories over a chain of 20 names', model_histories=total_c, executed=mc['executed'], failures=mc['failures_by_key']))
+    vlib.report_case_failures(ctx, mc, 'chain histories')
+    ctx.cov['evaluations'] += mc['executed']
+    ctx.cov['distinct_nontrivial'] += mc['executed']
     rs = ctx.tlc('di', 'DI', 'MC_DI_sim.cfg', workers=1, timeout=900, simulate='num=%d' % (300 if q else 6000),
                  extra=['-depth', '60', '-seed', str(ctx.seed)], name='DI simulated behaviours, 3 names')
     if rs['error'] and 'timeout' not in str(rs['error']):
